@@ -101,6 +101,9 @@ func main() {
 	t3 := []string{"internal/testprotos/test3/test.proto", "internal/testprotos/test3/test_import.proto", "internal/testprotos/test3/test_nesting.proto"}
 	write("test3", registered(t3...), t3, "features=protoc+fast,paths=source_relative", "")
 
+	// the repository's own option declarations (extensions of descriptor.proto options)
+	write("cosmos", registered("cosmos_proto/cosmos.proto"), []string{"cosmos_proto/cosmos.proto"}, "features=protoc+fast", "")
+
 	b, _ := json.MarshalIndent(index, "", " ")
 	if err := os.WriteFile(filepath.Join(*outDir, "index.json"), b, 0o644); err != nil {
 		panic(err)
